@@ -94,11 +94,13 @@ def run(chk: Check, drv: Driver):
         ident_texts.append(f"a(i) = {nm}(i,j) * c(j)")
     runner = CliRunner()
     c_jobs = []
+    graph_prs = []
     kind_sets = [["evaluate"], ["assemble"], ["compute"], ["evaluate", "assemble", "compute"]]
     for pr in kruns.enumerate_problems(chk, n_random=(40 if quick else 500), per_assignment=(3 if quick else 12), extra_texts=ident_texts):
         if pr.problem is None:
             continue
         reserved = sorted(names_of(pr) & C_RESERVED)
+        graph_prs.append(pr)
         for kinds in ([rng.choice(kind_sets)] if quick else kind_sets):
             for lang in ("c", "llvm"):
                 case = pr.case(kinds=kinds, language=lang)
@@ -170,6 +172,9 @@ def run(chk: Check, drv: Driver):
                 chk.violation(f"CLI ended with exit code {res.exit_code} / exception {type(exc).__name__}", pr.case(entry="cli", args=args))
         elif res.exit_code == 1 and not (res.stderr or res.output).strip():
             chk.violation("CLI exited 1 without a message", pr.case(entry="cli", args=args))
+    from .. import graphcorr
+
+    graphcorr.run_graphs(chk, drv, graph_prs)
     # C syntax checks in parallel
     with tempfile.TemporaryDirectory(prefix="verif_c08_") as td:
         with concurrent.futures.ThreadPoolExecutor(max_workers=16) as ex:
